@@ -5,6 +5,7 @@ from __future__ import annotations
 import contextlib
 import importlib
 import inspect
+import os
 import sys
 
 import z3
@@ -411,6 +412,33 @@ class Opaque:
 
 # -------------------------------------------------------------------------- verification
 EXPECTED_EXC = (ValueError, NotImplementedError, TypeError, IndexError, ZeroDivisionError)
+_SHIM_DIR = os.path.dirname(os.path.abspath(__file__))
+
+
+def _raised_by_the_shim(ex):
+    """TypeError / AttributeError-like failures whose innermost frame is verifier code (symjnp/*), or the call of a shim
+    function with arguments it does not accept: e.g. `jnp.arange(n, dtype=int)` when the shim's arange has no dtype"""
+    if not isinstance(ex, TypeError):
+        return False
+    tb = ex.__traceback__
+    last = None
+    while tb is not None:
+        last = tb
+        tb = tb.tb_next
+    fn = last.tb_frame.f_code.co_filename if last is not None else ""
+    msg = str(ex)
+    if os.path.abspath(fn).startswith(_SHIM_DIR):
+        return True
+    # the call itself failed to bind (frame of the caller is the last one): decide by the callee named in the message
+    if not any(s in msg for s in ("unexpected keyword argument", "positional argument", "required positional")):
+        return False
+    from . import shim as _shim
+    callee = msg.split("(")[0].split(".")[-1].strip()
+    names = {getattr(f, "__name__", None) for ns in (_shim.JNP, _shim.JAX, _shim.JAX.lax, _shim.JAX.random, _shim.JNP.fft, _shim.JNP.linalg)
+             for f in vars(ns).values() if callable(f)} | {n for n, f in vars(_shim).items() if callable(f)}
+    from . import values as _values
+    names |= {n for n, f in vars(_values.SArr).items() if callable(f)}
+    return callee in names and not callee.startswith("build_")
 
 
 def verify_contract(c: Contract, *, only_case=None):
@@ -497,6 +525,10 @@ def verify_contract(c: Contract, *, only_case=None):
                 except OutsideSubset:
                     raise
                 except EXPECTED_EXC as ex:
+                    if _raised_by_the_shim(ex):
+                        # an unsupported call form of a jax function (unknown keyword, unsupported operand type): a limit
+                        # of the verifier, never a statement about the code under verification
+                        raise OutsideSubset(f"the shim does not model this call: {type(ex).__name__}: {str(ex)[:160]}") from ex
                     exc = ex
             matched = False
             for exc_t, cond in c.raises:
